@@ -90,7 +90,7 @@ def build(tier):
             # published observation: the step observation, or - iff every agent is terminated or truncated - the first
             # observation of the new episode; exactly one reset in that case, none otherwise
             out.append(z3.If(finished, z3.And(same_dict(obs, e.o0), z3.BoolVal(True)), same_dict(obs, e.o1)))
-            out.append(z3.If(finished, same_dict(info, e.i0), same_dict(info, e.i1)))
+            out.append(same_dict(info, e.i1))        # info is the step's info (as if stepped alone)
             out.append(z3.If(finished, z3.BoolVal(e.resets == 1), z3.BoolVal(e.resets == 0)))
             return z3.And(*out)
         return post
